@@ -17,6 +17,7 @@ from vlib import core, flow
 
 FAMILIES = ["best", "bose_nelson", "bose_nelson_parameter"]
 ENTRIES = ["direct", "dispatch"]
+KINDS = ["ptr", "rev", "deque", "stride"]
 GEN = os.path.join(core.LEAN, "TlxVerif", "Gen", "C15Networks.lean")
 
 
@@ -86,7 +87,10 @@ class C15(flow.Spec):
     @property
     def harness(self):
         flags = ["-DC15_NO_DEFAULT"] if self._probe_default() else []
-        return dict(name="c15", sources=["c15.cpp"], flags=flags)
+        # -g1: the harness instantiates every entry point for four iterator kinds; full debug info doubles the build time
+        return dict(name="c15", sources=["c15.cpp"], flags=flags,
+                    std_flags=["-std=gnu++17", "-O1", "-g1", "-fsanitize=address,undefined",
+                               "-fno-sanitize-recover=all", "-fno-omit-frame-pointer"])
 
     # ------------------------------------------------------------------ A translator
     def translator(self, ctx):
@@ -97,15 +101,17 @@ class C15(flow.Spec):
         if rc != 0:
             return ["extractor does not compile against the tree: " + (o + e)[-1500:]]
         tmp = os.path.join(ctx.work, "C15Networks.lean.new")
+        if os.path.exists(tmp):
+            os.remove(tmp)
         rc, out, err = core.sh([exe, tmp], timeout=300)
         if rc != 0:
-            probs.append("extractor failed (entry point missing, writes outside the array or input-dependent "
-                         "comparator trace): " + err.strip()[-800:])
+            probs.append("extractor failed (entry point missing, access outside the sequence, output not a permutation, "
+                         "input- or iterator-dependent comparator trace): " + err.strip()[:900])
         for l in out.splitlines():
             t = l.split()
             if len(t) >= 3:
                 self._extracted[(t[0], t[1], int(t[2]))] = [tuple(int(x) for x in p.split(":")) for p in t[3:]]
-        if rc == 0 and os.path.exists(tmp):
+        if os.path.exists(tmp):
             new = open(tmp).read()
             old = open(GEN).read() if os.path.exists(GEN) else None
             if new != old:
@@ -159,16 +165,19 @@ class C15(flow.Spec):
         if round_no == 0:
             # every zero-one input of every entry point (the quantifier of the property after the
             # zero-one principle) — cheap enough for both tiers
-            for f in FAMILIES:
-                for e in ENTRIES:
-                    for n in range(17):
-                        if entry_exists(e, n):
-                            cs.append([f"case zo-{f}-{e}-{n}", f"zo {f} {e} {n}"])
+            # … through every iterator kind (pointer, reverse_iterator over an inner slice, deque across a block
+            # boundary, user-defined strided iterator); elements carry tags in these runs too (permfails)
+            for kind in KINDS:
+                for f in FAMILIES:
+                    for e in ENTRIES:
+                        for n in range(17):
+                            if entry_exists(e, n):
+                                cs.append([f"case zo-{kind}-{f}-{e}-{n}", f"zo {f} {e} {n}" + ("" if kind == "ptr" else " " + kind)])
             # search on the real code: failing zero-one inputs become `run` cases
             hb, _ = core.build_harness(ctx, **self.harness)
             if hb:
                 rc, out, err = core.sh([hb, "zofails", "2"], timeout=1200, env=core.SAN_ENV)
-                fails = [l for l in out.splitlines() if l.startswith("run ")]
+                fails = [l for l in out.splitlines() if l.startswith(("run ", "runi "))]
                 if rc != 0:
                     cs.append(["case zofails-crashed"] + fails[-1:])
                 for i, l in enumerate(fails[:40]):
@@ -185,7 +194,8 @@ class C15(flow.Spec):
                     e = "dispatch"
                 o = rng.choice(orders)
                 ks = self._keys(rng, n)
-                lines.append(f"run {f} {e} {n} {o} " + (",".join(map(str, ks)) if ks else "-"))
+                head = "run" if rng.random() < 0.3 else f"runi {rng.choice(KINDS)} {rng.randrange(16)}"
+                lines.append(f"{head} {f} {e} {n} {o} " + (",".join(map(str, ks)) if ks else "-"))
             cs.append(lines)
         return cs
 
@@ -195,6 +205,8 @@ class C15(flow.Spec):
             t = op.split()
             if t[0] == "zo" and int(t[3]) >= 2 and a.startswith("fails="):
                 ok = True
+            if t[0] == "runi":
+                t = ["run"] + t[3:]
             if t[0] == "run" and int(t[3]) >= 2 and ":" in a:
                 tags = [x.rsplit(":", 1)[1] for x in a.split(",")]
                 if tags != [str(i) for i in range(len(tags))]:
@@ -202,13 +214,14 @@ class C15(flow.Spec):
         return tuple(case[1:]) if ok else None
 
     def viol_class(self, message):
-        return " ".join(message.split()[:4])
+        return " ".join(message.split()[:5])
 
     def extra_coverage(self, ctx, res):
         return {
             "networks_extracted": len(self._extracted),
             "best_hpp_textually_confirmed": getattr(self, "_text_checked", 0),
-            "zero_one_inputs_enumerated_on_real_code": sum(2 ** n for e in ENTRIES for n in range(17) if entry_exists(e, n)) * 3,
+            "zero_one_inputs_enumerated_on_real_code": sum(2 ** n for e in ENTRIES for n in range(17) if entry_exists(e, n)) * 3 * len(KINDS),
+            "iterator_kinds": KINDS,
             "zero_one_failures_found": getattr(self, "_zofails", None),
             "default_cswap_forms_compile": not self._probe_default(),
         }
